@@ -84,6 +84,15 @@ def enumerate_cases(tier):
                 yield {"kind": "xproc", "participants": [one, one],
                        "chunks": [[first, s], [1 - first, t], [first, 100],
                                   [1 - first, 100]]}
+    # a process with exchanges on two terminals in flight at once (two tasks)
+    # and a second process using one of these terminals
+    two = {"tasks": [[{"term": 0, "msgs": 1}], [{"term": 1, "msgs": 3}]]}
+    for other in (0, 1):
+        b = {"tasks": [[{"term": other, "msgs": 2}]]}
+        for s in range(3, 22):
+            for t in range(1, 12):
+                yield {"kind": "xproc", "participants": [two, b],
+                       "chunks": [[0, s], [1, t], [0, 100], [1, 100]]}
 
 
 def strategy(tier):
